@@ -51,7 +51,7 @@ PROPS = {
     "C16": dict(title="race freedom", families=[], corr=set(), oracle=set(), theorem="Properties/C16.v", special="race", need_race=True),
     "C17": dict(title="memory proportional to content", families=[], corr=set(), oracle=set(), theorem="Properties/C17.v", special="heap", corpus=["D9"]),
     "C18": dict(title="GC safety", families=[("tree:full", 8, 60, 100, 22)], corr=ALL_TREE_TAGS, oracle=ALL_TREE_TAGS,
-                theorem="Properties/C18.v", special="gc", need_checkptr=True, opts=["-gc", "7"]),
+                theorem="Properties/C18.v", special="gc", need_checkptr=True, opts=["-gc", "7", "-buf"], side=("C13", "C08", "C09", "C02")),
     "C19": dict(title="generated trees", families=[], corr=set(), oracle=set(), theorem="Properties/C19.v", special="genout"),
 }
 
@@ -74,6 +74,12 @@ class Ctx:
         return os.path.join(ROOT, "replays", "%s-%s-%s.json" % (self.prop, self.seed, name))
 
 # ------------------------------------------------------------------ known findings
+
+def side_mine(ctx, s):
+    """is this side observation of the harness one of this property's? (cfg side: one label or several)"""
+    lab = ctx.cfg.get("side", "~")
+    labs = lab if isinstance(lab, (list, tuple)) else [lab]
+    return any(s.startswith("SIDE " + l) for l in labs)
 
 def nul_shape(cmds):
     """D2: two byte-string keys k1, k2 with k2 = k1 ++ 00 ++ _ occur in the history"""
@@ -176,7 +182,7 @@ def handle_mismatches(ctx, cmds_path, corr, orc, side, opts, harness=None):
         if len(ctx.violations) >= 5:
             return
     for s in side[:20]:
-        if s.startswith("SIDE " + ctx.cfg.get("side", "~")):
+        if side_mine(ctx, s):
             m = re.search(r'line=(\d+)', s)
             # line numbers in the side file count raw lines (1-based, comments included)
             raw = [l for l in open(cmds_path).read().split("\n")]
@@ -241,7 +247,7 @@ def run_files(ctx, files, opts, corr_tags, oracle_tags, harness=None, project=No
             idxs = [i for i, c in enumerate(cmds[:k + 1]) if len(c.split()) > 1 and c.split()[1] == tid][:10]
             ctx.samples.append({"file": os.path.basename(f),
                                 "commands_and_implementation_output": [[cmds[i][:160], outl[i][:160] if i < len(outl) else ""] for i in idxs]})
-        if corr or orc or [s for s in side if s.startswith("SIDE " + ctx.cfg.get("side", "~"))]:
+        if corr or orc or [s for s in side if side_mine(ctx, s)]:
             handle_mismatches(ctx, f, corr, orc, side, opts, harness)
         panics = [s for s in side if s.startswith("PANIC")]
         tot["panics_seen"] = tot.get("panics_seen", 0) + len(panics)
